@@ -26,18 +26,20 @@ from .. import REPO
 from ..refmodels import c14_readers as ref
 
 RULE = ("round trips: every simple graph / dag with <= 4 vertices, every digraph (loops allowed) with <= 3 "
-        "vertices, every bipartite graph with <= 4 vertices (both sides may be empty, plus complete bipartite "
-        "objects), and seeded graphs with 0..15 vertices (half of them >= 10 vertices, densities 0..1, isolated "
-        "vertices, default / single-line / empty / newline-terminated names), in every format of "
-        "supported_file_formats(), through StringIO, path and handle with extension autodetection, from_file, "
-        "make_graph_from_spec (file argument, format + file, save) and the real cnfgen main (file argument + "
-        "save).  Texts: 1-3 stacked mutations (truncation, deleted / duplicated / swapped / blank / comment / "
-        "garbage lines, CRLF, token replacement / insertion / deletion, wrong declared counts, missing "
-        "terminators, repeated or decreasing vertex lines, out-of-range ids, self-loops, back edges, "
-        "format-specific damage of gml / dot) of written files and of hand-written templates, read as every "
-        "type the format supports, through StringIO and through a file given as command-line graph argument. "
-        "distinct = (type, format, channel, graph) for round trips, (type, format, text) for texts; trivial = "
-        "graph without edges / text without a digit.")
+        "vertices, every bipartite graph with <= 4 vertices (both sides may be empty), a fixed list of graphs with "
+        "10..12 vertices, and seeded graphs with 0..15 vertices (half of them >= 10 vertices, densities 0..1, isolated "
+        "vertices, empty sides, complete bipartite objects, default / single-line / empty / newline-terminated "
+        "names, shuffled insertion order), in every format of supported_file_formats(), through StringIO, path and "
+        "handle with extension autodetection, from_file, make_graph_from_spec (file argument, format + file with a "
+        "missing or misleading extension, save) and the real cnfgen main (file argument + save).  dag gate: seeded "
+        "and fixed digraphs with 0..2 edges u >= v written as digraph, read as dag.  Texts: a fixed corpus (one or "
+        "two texts per class of damage) and 1-3 stacked mutations (truncation, deleted / duplicated / swapped / "
+        "blank / comment / garbage lines, CRLF, exotic characters, token replacement / insertion / deletion, wrong "
+        "declared counts, missing terminators, repeated or decreasing vertex lines, out-of-range ids, self-loops, "
+        "back edges, format-specific damage of gml / dot) of written files and of hand-written templates, read as "
+        "every type the format supports, through StringIO and through a file given as command-line graph argument. "
+        "distinct = (type, format, channel, graph, name) for round trips, (format, graph) for the dag gate, (type, "
+        "format, text) for texts; trivial = graph without edges / text without a digit.")
 ASSUMPTIONS = [
     "the reference readers in vmon/refmodels/c14_readers.py (checked against the examples of the format "
     "descriptions at start-up) define 'consistent with the text' for kthlist, DIMACS edge and matrix files; "
@@ -478,8 +480,42 @@ def case_rt_random(ctx, gtype, fmt, channel, rseed, count):
                                   % (gtype, fmt, show(desc), v if v[0] != "graph" else show(v[1])), text=text)
 
 
+def gate_one(ctx, desc, fmt):
+    """A digraph written as 'digraph' and read as 'dag': refused exactly when an edge u >= v exists."""
+    G = build(desc)
+    st, text = write_text(ctx, G, "digraph", fmt)
+    if st == "exc":
+        ctx.violation("writer:%s:raises:%s" % (fmt, type(text).__name__), "writing %r raised %r" % (show(desc), text))
+        return
+    st, H = read_text(ctx, text, "dag", fmt)
+    cyclic = has_back_edge(desc)
+    where = "digraph %r written as %s and read as dag" % (show(desc), fmt)
+    lx = lexi(desc) if fmt == "dot" else None
+    if st == "exc":
+        if not isinstance(H, ValueError):
+            ctx.violation(exc_mechanism(fmt, "dag", H, text), "%s: raised %r" % (where, H), text=text)
+        elif cyclic:
+            ctx.count("dag_gate_cyclic_refused")
+        elif lx is not None and has_back_edge(lx):
+            ctx.violation(DOT_LEXI, "%s: refused (%s) although every edge goes upwards" % (where, H), text=text)
+        else:
+            ctx.violation("dag:%s:refuses-acyclic-file" % fmt, "%s: raised %r" % (where, H), text=text)
+    else:
+        got = observe(H, "dag")
+        if cyclic:
+            mech = DOT_LEXI if (lx is not None and got == lx and not has_back_edge(lx)) else \
+                "dag:%s:accepts-back-edge" % fmt
+            ctx.violation(mech, "%s: accepted as %r" % (where, show(got) if got else H), text=text)
+        elif got != desc:
+            mech = DOT_LEXI if (lx is not None and got == lx) else "roundtrip:%s:dag:edges-differ" % fmt
+            ctx.violation(mech, "%s: read back as %r" % (where, show(got) if got else H), text=text)
+        else:
+            ctx.count("dag_gate_acyclic_accepted")
+    ctx.judged(("gate", fmt, desc[1], tuple(sorted(desc[2]))), nontrivial=len(desc[2]) > 0,
+               sample={"dag_gate": fmt, "graph": show(desc), "cyclic": cyclic})
+
+
 def case_dag_gate(ctx, fmt, rseed, count):
-    """digraphs written as 'digraph', read as 'dag': refused exactly when an edge u >= v exists."""
     ref.selfcheck()
     r = ctx.rng("gate", fmt, rseed)
     for _ in range(count):
@@ -494,37 +530,33 @@ def case_dag_gate(ctx, fmt, rseed, count):
                 u = r.randint(1, n)
                 back.append((u, r.randint(1, u)))
             desc = ("digraph", n, frozenset(fwd + back))
-        G = build(desc)
-        st, text = write_text(ctx, G, "digraph", fmt)
-        if st == "exc":
-            ctx.violation("writer:%s:raises:%s" % (fmt, type(text).__name__), "writing %r raised %r" % (show(desc), text))
-            continue
-        st, H = read_text(ctx, text, "dag", fmt)
-        cyclic = has_back_edge(desc)
-        where = "digraph %r written as %s and read as dag" % (show(desc), fmt)
-        lx = lexi(desc) if fmt == "dot" else None
-        if st == "exc":
-            if not isinstance(H, ValueError):
-                ctx.violation(exc_mechanism(fmt, "dag", H, text), "%s: raised %r" % (where, H), text=text)
-            elif cyclic:
-                ctx.count("dag_gate_cyclic_refused")
-            elif lx is not None and has_back_edge(lx):
-                ctx.violation(DOT_LEXI, "%s: refused (%s) although every edge goes upwards" % (where, H), text=text)
-            else:
-                ctx.violation("dag:%s:refuses-acyclic-file" % fmt, "%s: raised %r" % (where, H), text=text)
-        else:
-            got = observe(H, "dag")
-            if cyclic:
-                mech = DOT_LEXI if (lx is not None and got == lx and not has_back_edge(lx)) else \
-                    "dag:%s:accepts-back-edge" % fmt
-                ctx.violation(mech, "%s: accepted as %r" % (where, show(got) if got else H), text=text)
-            elif got != desc:
-                mech = DOT_LEXI if (lx is not None and got == lx) else "roundtrip:%s:dag:edges-differ" % fmt
-                ctx.violation(mech, "%s: read back as %r" % (where, show(got) if got else H), text=text)
-            else:
-                ctx.count("dag_gate_acyclic_accepted")
-        ctx.judged(("gate", fmt, desc[1], tuple(sorted(desc[2]))), nontrivial=len(desc[2]) > 0,
-                   sample={"dag_gate": fmt, "graph": show(desc), "cyclic": cyclic})
+        gate_one(ctx, desc, fmt)
+
+
+FIXED = {
+    "simple": [("simple", 10, frozenset({(2, 10)})), ("simple", 12, frozenset((i, i + 1) for i in range(1, 12))),
+               ("simple", 11, frozenset())],
+    "digraph": [("digraph", 10, frozenset({(10, 2)})), ("digraph", 12, frozenset({(3, 3), (12, 1), (2, 11)})),
+                ("digraph", 2, frozenset({(1, 1), (1, 2), (2, 1), (2, 2)}))],
+    "dag": [("digraph", 10, frozenset({(2, 10)})), ("digraph", 12, frozenset((i, i + 1) for i in range(1, 12)))],
+    "bipartite": [("bipartite", 10, 2, frozenset({(10, 1), (2, 2)})), ("bipartite", 2, 11, frozenset({(1, 10), (2, 11), (2, 2)})),
+                  ("bipartite", 0, 3, frozenset()), ("bipartite", 3, 0, frozenset()), ("bipartite", 0, 0, frozenset())],
+}
+FIXED_GATE = [("digraph", 10, frozenset({(10, 2)})), ("digraph", 11, frozenset({(2, 10)})), ("digraph", 3, frozenset({(2, 2)})),
+              ("digraph", 3, frozenset({(1, 2), (2, 3), (3, 1)})), ("digraph", 3, frozenset({(1, 3), (2, 3)}))]
+
+
+def fixed_graphs(ctx):
+    """A few small graphs that every run transports, whatever the seed (ten or more vertices, empty sides)."""
+    r = ctx.rng("fixed")
+    for gtype, descs in FIXED.items():
+        for fmt in formats_for(gtype):
+            for desc in descs:
+                stage, st, val, text, fmts = transport(ctx, build(desc), gtype, fmt, "stringio", None, r)
+                judge_roundtrip(ctx, desc, gtype, fmt, "stringio", stage, st, val, text=text)
+    for fmt in formats_for("dag"):
+        for desc in FIXED_GATE:
+            gate_one(ctx, desc, fmt)
 
 
 # ------------------------------------------------------------------ hostile texts
@@ -967,7 +999,7 @@ CORPUS = {
             "graph [\n  multigraph 1\n  node [\n    id 0\n  ]\n  node [\n    id 1\n  ]\n  edge [\n    source 0\n    target 1\n  ]\n"
             "  edge [\n    source 0\n    target 1\n  ]\n]\n",
             "graph [\n  node [\n    id 0\n  ]\n  edge [\n    source 0\n    target 5\n  ]\n]\n",
-            "graph [\n  node [\n    id 0\n  ]\n  node [\n    id 0\n  ]\n]\n", "graph [ node [ id 0 label \"é\" ] ]\n"],
+            "graph [\n  node [\n    id 0\n  ]\n  node [\n    id 0\n  ]\n]\n", "graph [ node [ id 0 label \"\u00e9\" ] ]\n"],
     "dot": ["", "graph {\n}\n", "strict digraph {\n1;\n2;\n2 -> 1;\n}\n", "strict graph {\n1;\n2;\n1 -- 2;\n",
             "strict graph {\na;\nb;\na -- b;\n}\n", "digraph {\n1 -> 2;\n1 -> 2;\n}\n",
             "strict graph {\n1 [bipartite=0];\n2 [bipartite=0];\n1 -- 2;\n}\n", "strict graph {\n1 [bipartite=0];\n2;\n}\n",
@@ -975,8 +1007,10 @@ CORPUS = {
 }
 
 
-def case_corpus(ctx):
+def case_fixed(ctx):
+    """Texts and graphs that every run sees, whatever the seed."""
     ref.selfcheck()
+    fixed_graphs(ctx)
     with Scratch() as scratch:
         for gtype in ("simple", "digraph", "dag", "bipartite"):
             for fmt in formats_for(gtype):
@@ -1009,6 +1043,8 @@ def workload(tier, seed):
     TYPES = ("simple", "digraph", "dag", "bipartite")
     FORMATS = {"simple": ["kthlist", "gml", "dot", "dimacs"], "digraph": ["kthlist", "gml", "dot", "dimacs"],
                "dag": ["kthlist", "gml", "dot", "dimacs"], "bipartite": ["kthlist", "gml", "dot", "matrix"]}
+    # fixed witnesses of every class of damage first (small replay files), independent of the seed
+    yield "fixed", {}
     # enumerated sub-space (independent of the seed)
     for gtype in TYPES:
         for fmt in FORMATS[gtype]:
@@ -1055,7 +1091,6 @@ def workload(tier, seed):
         for b in range(batches):
             yield "dag_gate", {"fmt": fmt, "rseed": seed * 1000 + b, "count": count}
     # hostile texts
-    yield "corpus", {}
     for gtype in TYPES:
         for fmt in FORMATS[gtype]:
             if fmt == "dot":
